@@ -221,6 +221,7 @@ fn f64_class(v: f64) -> &'static str {
 fn check_f64(v: f64, acc: &mut Acc) {
     let t = v.to_plain();
     let t = if (&v).to_plain() == t && (&&v).to_plain() == t { t } else { format!("<by-reference spelling {:?} differs from {:?}>", (&v).to_plain(), t) };
+    refused_first::<f64>(&t);
     let back = f64::from_plain(&t);
     let rt = match back {
         Ok(b) => (b.is_nan() && v.is_nan()) || b.to_bits() == v.to_bits(),
@@ -243,6 +244,7 @@ fn check_f64(v: f64, acc: &mut Acc) {
 fn check_i32(v: i32, acc: &mut Acc) {
     let t = v.to_plain();
     let t = if (&v).to_plain() == t && (&&v).to_plain() == t { t } else { format!("<by-reference spelling {:?} differs from {:?}>", (&v).to_plain(), t) };
+    refused_first::<i32>(&t);
     let rt = i32::from_plain(&t).ok() == Some(v);
     let class = if v < 0 { "negative" } else { "non-negative" };
     acc.record("integer", v.to_string(), &t, rt, t == model_decimal(v as i128), class);
@@ -267,13 +269,24 @@ fn check_safelong(v: i64, acc: &mut Acc) {
     };
     let t = s.to_plain();
     let t = if (&s).to_plain() == t && (&&s).to_plain() == t { t } else { format!("<by-reference spelling {:?} differs from {:?}>", (&s).to_plain(), t) };
+    refused_first::<SafeLong>(&t);
     let rt = SafeLong::from_plain(&t).ok() == Some(s);
     acc.record("safelong", v.to_string(), &t, rt, t == model_decimal(v as i128), class);
+}
+
+/// refused texts parsed just before a valid one, on the same thread: a rejection must leave
+/// nothing behind that the next parse could pick up
+fn refused_first<T: FromPlain>(valid: &str) {
+    let cut = valid.char_indices().nth(valid.chars().count().saturating_sub(1)).map(|(i, _)| &valid[..i]).unwrap_or("");
+    for bad in [format!("{}*", valid), cut.to_string(), format!("{}\u{e9}", cut), format!(" {}", valid), format!("{}{}", valid, valid)] {
+        let _ = T::from_plain(&bad);
+    }
 }
 
 fn check_bytes(v: &[u8], acc: &mut Acc) {
     let b = Bytes::copy_from_slice(v);
     let t = b.to_plain();
+    refused_first::<Bytes>(&t);
     let t = if (&b).to_plain() == t && (&&b).to_plain() == t { t } else { format!("<by-reference spelling {:?} differs from {:?}>", (&b).to_plain(), t) };
     let rt = Bytes::from_plain(&t).ok().as_ref() == Some(&b);
     let t2 = v.to_plain(); // the [u8] impl
@@ -286,6 +299,7 @@ fn check_bytes_long(len: usize, pat: u8, acc: &mut Acc) {
     let b = Bytes::copy_from_slice(v);
     let t = b.to_plain();
     let t = if (&b).to_plain() == t && (&&b).to_plain() == t { t } else { format!("<by-reference spelling {:?} differs from {:?}>", (&b).to_plain(), t) };
+    refused_first::<Bytes>(&t);
     let rt = Bytes::from_plain(&t).ok().as_ref() == Some(&b);
     let t2 = v.to_plain();
     acc.record("binary", format!("long:{}:{}", len, pat), &t[..t.len().min(24)], rt && t2 == t, t == model_base64(v), &format!("long,len%3={}", v.len() % 3));
@@ -295,6 +309,7 @@ fn check_uuid(v: u128, acc: &mut Acc) {
     let u = Uuid::from_u128(v);
     let t = u.to_plain();
     let t = if (&u).to_plain() == t && (&&u).to_plain() == t { t } else { format!("<by-reference spelling {:?} differs from {:?}>", (&u).to_plain(), t) };
+    refused_first::<Uuid>(&t);
     let rt = Uuid::from_plain(&t).ok() == Some(u);
     acc.record("uuid", format!("{:#034x}", v), &t, rt, t == model_uuid(v), "any");
 }
@@ -313,6 +328,7 @@ fn check_datetime(y: i32, mo: u32, d: u32, h: u32, mi: u32, sec: u32, nanos: u32
     let dt: DateTime<Utc> = naive.and_utc();
     let t = dt.to_plain();
     let t = if (&dt).to_plain() == t && (&&dt).to_plain() == t { t } else { format!("<by-reference spelling {:?} differs from {:?}>", (&dt).to_plain(), t) };
+    refused_first::<DateTime<Utc>>(&t);
     let rt = DateTime::<Utc>::from_plain(&t).ok() == Some(dt);
     let class = if sec == 60 { "leap-second" } else if nanos == 0 { "whole-second" } else { "fractional" };
     acc.record(
